@@ -36,6 +36,8 @@ class ExprMixin:
     def new_temp(self, t, with_dtor=True):
         nm = self.uniq(self.tmp())
         self.hoist('%s;' % cdecl(t, nm))
+        if self.L.rec_of_type(t) is not None and not is_ref(t):
+            self.hoist('FRGV_RAW_STORAGE(%s);' % nm)
         return nm
 
     def materialize(self, n, t=None):
